@@ -128,6 +128,14 @@ func c15Trees(tier string, yield0 func(*tnode)) {
 		yield(c15Dir("work", c15Files(fs), c15Dir("api", c15Files(4)), c15Dir("api-v2", c15Files(1)), c15Dir("api.old", c15Files(1)), c15Dir("api0", c15Files(1), c15Dir("api", c15Files(1)), c15Dir("api!", c15Files(1)))))
 		yield(c15Dir("work", c15Files(fs), c15Dir("sub", c15Files(1), c15Dir("x", c15Files(1))), c15Dir("sub-x", c15Files(1)), c15Dir("sub.go", c15Files(1))))
 	}
+	// hard-linked regular files (also beneath an excluded directory) and symbolic links that form cycles
+	for fs := 0; fs < 5; fs++ {
+		c15CurFS = fs
+		hl := &tnode{Name: "h.go", Kind: "hlfile"}
+		yield(c15Dir("work", append(c15Files(fs), hl), c15Dir("sub", c15Files(1)), c15Dir("vendor", []*tnode{{Name: "v.go", Kind: "file"}})))
+		yield(c15Dir("work", c15Files(fs), c15Dir("vendor", []*tnode{{Name: "h.go", Kind: "hlfile"}}), c15Dir("pkg", c15Files(1))))
+		yield(c15Dir("work", c15Files(fs), c15Dir("a", append(c15Files(1), &tnode{Name: "to-b", Kind: "linkpeer"})), c15Dir("b", append(c15Files(1), &tnode{Name: "to-a", Kind: "linkpeer"}, &tnode{Name: "up", Kind: "linkup"}))))
+	}
 	for fs := 0; fs < 5; fs++ {
 		c15CurFS = fs
 		yield(c15Dir("work", c15Files(fs)))
@@ -159,7 +167,7 @@ func c15Candidates(t *tnode) []string {
 		for _, k := range n.Kids {
 			p := path.Join(rel, k.Name)
 			switch k.Kind {
-			case "file", "linkfile", "danglink":
+			case "file", "hlfile", "linkfile", "danglink":
 				if k.Kind == "danglink" {
 					continue // naming a dangling link is a failing path (C16)
 				}
@@ -175,7 +183,7 @@ func c15Candidates(t *tnode) []string {
 					c = append(c, "$ABS/"+p, p+"...", "./"+p+"/", "$ABS/"+p+"/..", p+"/../"+p, "$ABS/"+p+"/.")
 				}
 				walk(k, p, depth+1)
-			case "linkdir":
+			case "linkdir", "linkup", "linkpeer":
 				c = append(c, p, p+"/...")
 			}
 		}
@@ -270,7 +278,7 @@ func c15Expected(t *tnode, args []string) []string {
 		for _, k := range n.Kids {
 			p := path.Join(rel, k.Name)
 			switch k.Kind {
-			case "file":
+			case "file", "hlfile":
 				if strings.HasSuffix(k.Name, ".go") {
 					set[p] = true
 				}
@@ -306,7 +314,7 @@ func c15Expected(t *tnode, args []string) []string {
 			panic("argument does not exist in tree: " + a)
 		}
 		switch n.Kind {
-		case "file":
+		case "file", "hlfile":
 			if strings.HasSuffix(n.Name, ".go") {
 				set[a] = true // a file named explicitly is processed wherever it lives
 			}
@@ -325,6 +333,7 @@ func c15Expected(t *tnode, args []string) []string {
 func c15Materialize(t *tnode, root string) map[string]string {
 	files := map[string]string{
 		"outside/o.go":    c15Src,
+		"outside/h.go":    c15Src,
 		"outside/od/p.go": c15Src,
 		"p.patch":         c15Patch,
 	}
@@ -342,6 +351,12 @@ func c15Materialize(t *tnode, root string) map[string]string {
 				files[p] = "->" + root + "/outside/od"
 			case "danglink":
 				files[p] = "->" + root + "/outside/nonexistent"
+			case "hlfile": // a regular file with a second name outside the tree
+				files[p] = "=>" + root + "/outside/h.go"
+			case "linkup": // a symbolic link to an ancestor: following it never ends
+				files[p] = "->.."
+			case "linkpeer": // two directories that link to each other
+				files[p] = "->../" + strings.TrimPrefix(k.Name, "to-")
 			case "dir":
 				walk(k, p)
 			}
